@@ -179,6 +179,8 @@ func Generate(family string, seed int64, idx int) Scenario {
 		sc.Steps, sc.EndMs = steps, end+4*sc.P.HeartbeatMs
 	case "fig8x":
 		genFig8x(r, &sc)
+	case "storefail":
+		genStoreFail(r, &sc)
 	case "lease":
 		genLease(r, &sc)
 	case "quiet":
@@ -627,4 +629,38 @@ func genFig8x(r *rand.Rand, sc *Scenario) {
 	sc.Clients = 0
 	sc.Script = "fig8x"
 	sc.EndMs = 0
+}
+
+// genStoreFail (C05, C03, C04): followers whose log store starts failing (they
+// reject AppendEntries with entries but keep answering heartbeats) while other
+// voters are cut off, so that the leader's majority hinges on followers that
+// did not store what they were sent; pipelined replication on.
+func genStoreFail(r *rand.Rand, sc *Scenario) {
+	p := &sc.P
+	p.Voters = pick(r, 3, 3, 5)
+	p.NonVoters = pick(r, 0, 1)
+	p.Spares = 0
+	p.PreVoteOff = make([]bool, p.N())
+	p.Pipeline = r.Intn(4) != 0
+	p.RestoreCommitted = false
+	p.ShutdownOnRemove = false
+	sc.ThinkMs = pick(r, 5, 20)
+	t := 3 * p.HeartbeatMs
+	for i := 0; i < 4+r.Intn(6); i++ {
+		t += p.HeartbeatMs/2 + r.Intn(2*p.HeartbeatMs)
+		a := r.Intn(p.Voters)
+		b := (a + 1 + r.Intn(p.Voters-1)) % p.Voters
+		sc.Steps = append(sc.Steps, Step{At: t, Act: "arm-sticky", N: []int{a}, S: "store", V: []float64{float64(r.Intn(4))}})
+		if r.Intn(2) == 0 {
+			sc.Steps = append(sc.Steps, Step{At: t + r.Intn(20), Act: "isolate", N: []int{b}})
+		}
+		sc.Steps = append(sc.Steps, Step{At: t + 5, Act: "burst", N: []int{2 + r.Intn(6)}})
+		t += p.HeartbeatMs + r.Intn(2*p.HeartbeatMs)
+		sc.Steps = append(sc.Steps, Step{At: t, Act: "disarm", N: []int{a}}, Step{At: t + 1, Act: "heal"})
+		if r.Intn(3) == 0 {
+			sc.Steps = append(sc.Steps, Step{At: t + 2, Act: "crash-leader"}, Step{At: t + p.HeartbeatMs, Act: "restartall"})
+		}
+	}
+	sortSteps(sc.Steps)
+	sc.EndMs = t + 2*p.HeartbeatMs
 }
